@@ -358,10 +358,20 @@ fn get_dir_name() -> String {
     return String::from(unique_db_test_db_name);
 }
 
+#[cfg(not(nundb_verif))]
 #[cfg(not(test))]
 fn get_dir_name() -> String {
     use crate::configuration::NUN_DBS_DIR;
     NUN_DBS_DIR.to_string()
+}
+
+#[cfg(all(nundb_verif, not(test)))]
+fn get_dir_name() -> String {
+    use crate::configuration::NUN_DBS_DIR;
+    match crate::verif_hooks::data_dir() {
+        Some(dir) => dir,
+        None => NUN_DBS_DIR.to_string(),
+    }
 }
 
 pub fn create_db_from_file_name(file_name: &String, dbs: &Arc<Databases>) -> (Database, String) {
